@@ -4,7 +4,8 @@
 (* Time, real plugins and systems) is checked to be a behaviour of Bevy.tla.*)
 (* Records:                                                                 *)
 (*  {"ev":"world", "tl":[[del,tot]..], "keytl":[..], "chain":[..],          *)
-(*   "hassel":b, "hasb":b, "tlA":id, "tlB":id, "key0":k, "enA":b}           *)
+(*   "hassel":b, "hasb":b, "hase2":b, "tlA":id, "tlB":id, "tlE2":id,         *)
+(*   "key0":k, "enA":b}                                                     *)
 (*  {"ev":"op", "op":"key"|"enable"|"reset"|"settl"|"setpos", ...}           *)
 (*  {"ev":"frame", "dt":ticks, "A":[st,pos,en], "B":[st,pos,en], "key":k,   *)
 (*   "out":[state numbers of the events sent this frame, in order]}         *)
@@ -23,10 +24,12 @@ vars == <<l, w, ord, pred, wi>>
 
 B2I(b) == IF b THEN 1 ELSE 0
 ObsOf(a) == <<StNo(a.st), a.pos, B2I(a.en)>>
-RECURSIVE OutNos(_, _)
-OutNos(out, i) == IF i > Len(out) THEN <<>> ELSE <<StNo(out[i][2])>> \o OutNos(out, i + 1)
+\* state numbers of the events of the first entity (who # "A2") resp. of the second (who = "A2"), in order
+RECURSIVE OutNos(_, _, _)
+OutNos(out, i, second) == IF i > Len(out) THEN <<>>
+                          ELSE (IF (out[i][1] = "A2") = second THEN <<StNo(out[i][2])>> ELSE <<>>) \o OutNos(out, i + 1, second)
 
-EmptyWorld == World0([TL |-> <<>>, KeyTl |-> <<>>, ChainNext |-> <<>>, HasSel |-> FALSE, HasB |-> FALSE], 0, 0, 0, TRUE)
+EmptyWorld == World0([TL |-> <<>>, KeyTl |-> <<>>, ChainNext |-> <<>>, HasSel |-> FALSE, HasB |-> FALSE, HasE2 |-> FALSE], 0, 0, 0, 0, TRUE)
 Init == l = 1 /\ w = EmptyWorld /\ ord = <<>> /\ pred = <<>> /\ wi = 0
 
 Flush == IF wi > 0 THEN PrintT(<<"PRED", ToJson([world |-> wi, ord |-> ord, pred |-> pred])>>) ELSE TRUE
@@ -36,8 +39,8 @@ TWorld ==
   /\ Flush
   /\ LET r == Rec[l]
          c == [TL |-> [i \in 1..Len(r.tl) |-> [del |-> r.tl[i][1], tot |-> r.tl[i][2]]],
-               KeyTl |-> r.keytl, ChainNext |-> r.chain, HasSel |-> r.hassel, HasB |-> r.hasb]
-     IN w' = World0(c, r.tlA, r.tlB, r.key0, r.enA)
+               KeyTl |-> r.keytl, ChainNext |-> r.chain, HasSel |-> r.hassel, HasB |-> r.hasb, HasE2 |-> r.hase2]
+     IN w' = World0(c, r.tlA, r.tlB, r.tlE2, r.key0, r.enA)
   /\ ord' \in Orders
   /\ pred' = <<>> /\ wi' = wi + 1 /\ l' = l + 1
 
@@ -57,10 +60,11 @@ TFrame ==
          n == Frame(w, ord, r.dt)
      IN /\ r.A = ObsOf(n.an["A"])                       \* state, position, enabled of Animator<A>
         /\ (n.c.HasB => r.B = ObsOf(n.an["B"]))
+        /\ (n.c.HasE2 => (r.A2 = ObsOf(n.an["A2"]) /\ r.out2 = OutNos(n.out, 1, TRUE)))   \* the second entity
         /\ (n.c.HasSel => r.key = n.key)                 \* selector key after the frame
-        /\ r.out = OutNos(n.out, 1)                      \* events sent this frame, in order
+        /\ r.out = OutNos(n.out, 1, FALSE)               \* events of the first entity sent this frame, in order
         /\ w' = n
-        /\ pred' = Append(pred, [A |-> n.cid["A"], B |-> n.cid["B"]])
+        /\ pred' = Append(pred, [A |-> n.cid["A"], B |-> n.cid["B"], A2 |-> n.cid["A2"]])
   /\ l' = l + 1 /\ UNCHANGED <<ord, wi>>
 
 TEnd == l = Len(Rec) + 1 /\ Flush /\ l' = l + 1 /\ UNCHANGED <<w, ord, pred, wi>>
